@@ -51,6 +51,8 @@ type World struct {
 	authUsed      bool // a queued transaction of the current block already targets authC
 	installed     map[common.Address]bool
 	escrowHeights map[uint64]bool
+	fork          forkPoint
+	flags         Flags
 	authC         *common.Address // the one contract whose script uses AUTHCALL (re-assembled before every block)
 }
 
@@ -102,11 +104,13 @@ func (w *World) Reset(emit bool) {
 	w.escrowHeights = map[uint64]bool{}
 	w.miners = nil
 	w.minerSeq = 0
-	w.height = 100
 	w.installMainNode()
 	if emit {
 		w.out.Emit("reset", "ok")
+		w.SetFork(w.fork)
 		w.Univ(w.univ)
+	} else {
+		w.silentFork()
 	}
 }
 
@@ -206,7 +210,11 @@ func (w *World) stateLine() string {
 
 // budget: gas forwarded to a callee = 2M per action it can (transitively) execute, plus slack.
 func (w *World) budget(to common.Address) uint64 {
-	return 2000000 * uint64(w.scriptCost(w.codes[to], 0)+1)
+	unit := uint64(2000000)
+	if !w.flags.P026 {
+		unit = 70000 // gas costs are 30 times smaller before the Proposal026 magnification
+	}
+	return unit * uint64(w.scriptCost(w.codes[to], 0)+1)
 }
 
 func strHex(s string) string { return hx.Hex([]byte(s)) }
@@ -302,7 +310,7 @@ func (w *World) QueueContract(c CtSpec) *QTx {
 		typ = types.TransactionTypeETHTX
 		cur := w.adb.GetNonce(c.Src)
 		nonce = uint64(int64(cur) + int64(c.NonceOff))
-		nonceOk = nonce == cur
+		nonceOk = nonce == cur || !w.flags.P018 // validateNonce tests nothing before Proposal018
 	}
 	nz, z := 0, 0
 	for _, b := range input {
@@ -330,6 +338,7 @@ type BlockResult struct {
 	Panic    string
 	GasUsed  []uint64
 	Msgs     []string
+	P002     bool     // balance writes are journaled in this block (fork flag 002)
 	WBefore  *big.Int // balances + escrow + registry stake (wei)
 	WAfter   *big.Int
 }
@@ -337,10 +346,11 @@ type BlockResult struct {
 // Exec runs the queued transactions as one block through the unmodified VMExecutor and emits
 // the tx lines (with the gas oracle) and the exec line.
 func (w *World) Exec() BlockResult {
+	w.refreshFlags(w.height+1, w.height)
 	w.reopen()
 	w.refreshAuth()
 	w.authUsed = false
-	res := BlockResult{Before: w.Total(), WBefore: w.Wealth()}
+	res := BlockResult{Before: w.Total(), WBefore: w.Wealth(), P002: w.flags.P002}
 	w.height++
 	common.SetBlockHeight(w.height)
 	curWorld = w
@@ -387,16 +397,17 @@ func (w *World) Exec() BlockResult {
 	for _, q := range w.queue {
 		gu := uint64(0)
 		switch {
-		case ev[q.tx.Hash]:
-			st.WriteByte('e')
-		case rc[q.tx.Hash] == nil:
-			st.WriteByte('?')
-		case rc[q.tx.Hash].Status == types.ReceiptStatusSuccessful:
+		case rc[q.tx.Hash] != nil && rc[q.tx.Hash].Status == types.ReceiptStatusSuccessful:
 			st.WriteByte('s')
 			gu = rc[q.tx.Hash].GasUsed
-		default:
+		case rc[q.tx.Hash] != nil:
+			// before Proposal018 a failed transaction is also listed as evicted; it still has its receipt
 			st.WriteByte('f')
 			gu = rc[q.tx.Hash].GasUsed
+		case ev[q.tx.Hash]:
+			st.WriteByte('e')
+		default:
+			st.WriteByte('?')
 		}
 		res.GasUsed = append(res.GasUsed, gu)
 		if r := rc[q.tx.Hash]; r != nil {
